@@ -11,6 +11,8 @@ import Mimic.Script
 import Mimic.Packets
 import Mimic.Stream
 import Mimic.Extracted.Stream
+import Mimic.Dispatch
+import Mimic.Extracted.Session
 import Mimic.Extracted.Charset
 /-! Line-protocol driver pieces: one `handle` per domain. Unknown input is answered `bad-op`, never defaulted. -/
 namespace Mimic.Drv
@@ -500,6 +502,48 @@ def strm (_st : St) : List String → String
       | _, _ => "bad-op"
   | _ => "bad-op"
 
+/-! statement dispatch -/
+
+def parseStmtKind : String → Option Mimic.Dispatch.Kind
+  | "set" => some .set | "use" => some .use | "kill" => some .kill | "show" => some .show
+  | "describeTable" => some .describeTable | "describeSelect" => some .describeSelect | "begin" => some .begin
+  | "commit" => some .commit | "rollback" => some .rollback | "select" => some .select | "setop" => some .setop
+  | "other" => some .other | _ => none
+
+def optDb (s : String) : Option String := if s = "-" then none else some s
+
+def parseStmt (s : String) : Option Mimic.Dispatch.Stmt :=
+  match s.splitOn "/" with
+  | [k, st, dbs, u, tag, f] => match parseStmtKind k, tag.toNat? with
+      | some k, some t =>
+          some ⟨k, st == "1", if dbs = "" then [] else (dbs.splitOn ",").map optDb, u, t, f == "1"⟩
+      | _, _ => none
+  | _ => none
+
+def parseSel (s : String) : Option Mimic.Dispatch.Sel :=
+  if s.startsWith "H:" then some (.handshake (optDb (s.drop 2).toString))
+  else if s.startsWith "I:" then some (.initDb (s.drop 2).toString)
+  else if s.startsWith "C:" then some (.changeUser (optDb (s.drop 2).toString))
+  else if s.startsWith "T:" then
+    let body := (s.drop 2).toString
+    (optAllL ((if body = "" then [] else body.splitOn ";").map parseStmt)).map .text
+  else none
+
+def showWho : Option Mimic.Dispatch.Mw → String
+  | none => "app"
+  | some m => (reprStr m).replace "Mimic.Dispatch.Mw." ""
+
+def showEntry (e : Mimic.Dispatch.Entry) : String := s!"{e.tag}@{e.db.getD "-"}>{showWho e.who}"
+
+def dsp (_st : St) : List String → String
+  | "run" :: evs => match optAllL (evs.map parseSel) with
+      | some evs =>
+          let order := Mimic.Extracted.Session.middlewareNames.filterMap Mimic.Dispatch.Mw.ofName
+          let r := Mimic.Dispatch.connRun order Mimic.Extracted.Session.catalogDbs none evs
+          s!"{r.1.getD "-"} " ++ "|".intercalate (r.2.map (fun t => ",".intercalate (t.map showEntry)))
+      | none => "bad-op"
+  | _ => "bad-op"
+
 def handle (st : St) (line : String) : St × String :=
   match words line with
   | "ctl" :: rest => ctl st rest
@@ -512,6 +556,7 @@ def handle (st : St) (line : String) : St × String :=
   | "conn" :: rest => conn st rest
   | "pkt" :: rest => (st, pktOps st rest)
   | "strm" :: rest => (st, strm st rest)
+  | "dsp" :: rest => (st, dsp st rest)
   | _ => (st, "bad-op")
 
 end Mimic.Drv
